@@ -120,6 +120,11 @@ class RDFWriter(object):
 
         :return: An RDF graph.
         """
+        # Every conversion starts from an empty graph: a writer that is used for
+        # more than one export must not add the documents a second time.
+        self.graph = Graph()
+        self.graph.bind("odml", ODML_NS)
+
         self.hub_root = URIRef(ODML_NS.Hub)
         if self.docs:
             for doc in self.docs:
